@@ -13,6 +13,32 @@ func UnmarshalSelectionSet(b []byte) (SelectionSet, error) {
 
 	result := make([]Selection, 0)
 	for _, item := range tmp {
+		// Every selection kind decodes into Field without error, so the kind has to be
+		// recognised from the keys that are present before falling back to trial decoding.
+		var keys map[string]json.RawMessage
+		if err := json.Unmarshal(item, &keys); err == nil {
+			_, hasTypeCondition := keys["TypeCondition"]
+			_, hasAlias := keys["Alias"]
+			_, hasArguments := keys["Arguments"]
+			_, hasSelectionSet := keys["SelectionSet"]
+			_, hasName := keys["Name"]
+			switch {
+			case hasTypeCondition:
+				var inlineFragment InlineFragment
+				if err := json.Unmarshal(item, &inlineFragment); err != nil {
+					return nil, err
+				}
+				result = append(result, &inlineFragment)
+				continue
+			case hasName && !hasAlias && !hasArguments && !hasSelectionSet:
+				var fragmentSpread FragmentSpread
+				if err := json.Unmarshal(item, &fragmentSpread); err != nil {
+					return nil, err
+				}
+				result = append(result, &fragmentSpread)
+				continue
+			}
+		}
 		var field Field
 		if err := json.Unmarshal(item, &field); err == nil {
 			result = append(result, &field)
